@@ -6,8 +6,9 @@ Direct oracle (O): for `Def` trees drawn from the documented grammar (docs/first
 names, rendered under random layouts (blanks, tabs, CR, LF, CRLF, comments incl. directly after a word, comment at EOF; plus
 texts produced by the Lean `Spec.Sfdl.render` itself), the shape the real code builds (class kinds, keys in order, item classes)
 must be the documented shape (`Spec.Sfdl.shape`, from the driver and from the Python twin below) whenever the tree satisfies the
-stated hypotheses (non-empty lists, distinct keys, list names where the documentation shows them).  Definitions with a closing
-bracket removed or with an unknown item name must raise.
+stated hypotheses (non-empty lists, distinct keys, list names where the documentation shows them) — and also on every other tree on
+which the validated model of the unchanged code yields the documented shape.  Definitions with a closing bracket removed or with
+an unknown item name must raise.
 """
 from __future__ import annotations
 
@@ -373,6 +374,46 @@ def render_tokens(rng: hlib.Rng, toks, style: int) -> str:
 
 
 # ------------------------------------------------------------------------------------------------ main
+class RobustDriver(hlib.Driver):
+    """the driver binary is relinked whenever another check rebuilds it: wait for it instead of failing on the gap"""
+
+    def __init__(self):
+        import time
+        super().__init__()
+        for _ in range(60):
+            if self.available:
+                break
+            time.sleep(1.0)
+            super().__init__()
+
+    def run(self, lines, timeout: float = 600.0):
+        import time
+        last = None
+        for _ in range(60):
+            try:
+                return super().run(lines, timeout)
+            except (OSError, RuntimeError) as exc:  # missing / half-written executable, or a run cut short by the relink
+                last = exc
+                time.sleep(1.5)
+        raise RuntimeError(f"model driver unusable: {last}")
+
+
+def load_facts():
+    """gen/facts.json is rewritten by every check run (also concurrent ones of other properties): retry a torn read"""
+    import time
+    last = None
+    for _ in range(25):
+        try:
+            with open(os.path.join(hlib.ROOT, "gen", "facts.json")) as fh:
+                facts = json.load(fh)
+            if "Catalogue" in facts and "DataItems" in facts:
+                return facts
+        except (OSError, ValueError) as exc:
+            last = exc
+        time.sleep(0.2)
+    raise RuntimeError(f"gen/facts.json unreadable: {last}")
+
+
 def main():
     a = hlib.std_args()
     if a.replay:
@@ -380,8 +421,17 @@ def main():
         rp = json.load(open(a.replay))
         a.seed, a.tier = int(rp.get("seed", a.seed)), rp.get("tier", a.tier)
     res = hlib.Result("C19", a.tier, a.seed)
+    _violate, _per_class = res.violate, {}
+
+    def capped_violate(klass, *args, **kw):
+        """at most eight entries per finding class, so that a flood of one class cannot push another one out of the report"""
+        _per_class[klass] = _per_class.get(klass, 0) + 1
+        res.bump("violations_by_class", klass)
+        if _per_class[klass] <= 8:
+            _violate(klass, *args, **kw)
+    res.violate = capped_violate
     rng = hlib.Rng(a.seed ^ 0xC19)
-    drv = hlib.Driver()
+    drv = RobustDriver()
     big = a.tier == "thorough" or a.search
     res.rule = ("Def trees from the documented grammar (depth<=4 quick / 6 thorough, width 1..6, item names from the 124 catalogue items, list names plain/odd/"
                 "equal to item names) in three families (documented name placement; free placement incl. empty lists and duplicate keys; the finding's "
@@ -389,7 +439,7 @@ def main():
                 "Lean Spec.render; mutations: every single-token deletion, unknown/misspelt item names; random token soups; the 134 catalogue texts. "
                 "distinct = distinct text; non-trivial = text with at least one list")
 
-    facts = json.load(open(os.path.join(hlib.ROOT, "gen", "facts.json")))
+    facts = load_facts()
     items = [r["cls"] for r in facts["DataItems"]["items"]]
     item_set = set(items)
     g = Gen(rng, items)
@@ -408,11 +458,11 @@ def main():
 
     batch_cases, batch_lines, batch_impl = [], [], []
 
-    def queue(kind: str, text: str, case):
-        """one text through split/tok/parse on both sides"""
+    def queue(kind: str, text: str, case, doc=None):
+        """one text through split/tok/parse on both sides; `doc`: the documented shape of the tree the text was rendered from"""
         hx = hex_text(text)
         for op, fn in (("split", impl_split), ("tok", impl_tok), ("parse", impl_parse)):
-            batch_cases.append({"op": op, "kind": kind, "text": text if len(text) < 400 else text[:400] + "…", "case": case})
+            batch_cases.append({"op": op, "kind": kind, "text": text if len(text) < 400 else text[:400] + "…", "case": case, "doc": doc if op == "parse" else None})
             batch_lines.append(f"sfdl {op} {hx}")
             batch_impl.append(fn(text).rstrip() if op != "split" else fn(text).rstrip())
 
@@ -427,6 +477,12 @@ def main():
                 res.traces_validated += 1
                 if hlib.strip_branch(m).rstrip() != i.rstrip():
                     res.disagree(what + " " + case["op"], case, m[:1500], i[:1500])
+                    # outside the theorem's hypotheses the oracle still judges every tree on which the validated model of the unchanged
+                    # code yields the documented shape: there the code must yield it too
+                    m0 = hlib.strip_branch(m).rstrip()
+                    if case.get("doc") and m0.startswith("ok ") and erase(m0[3:]) == case["doc"] and not (i.startswith("ok ") and erase(i[3:]) == case["doc"]):
+                        res.violate("c19-shape", "a well-formed definition does not get the documented shape",
+                                    {"def": case["case"], "text": case["text"], "kind": case["kind"]}, "ok " + case["doc"], i[:600])
         else:
             res.notes.append(f"driver unavailable: correspondence '{what}' skipped ({len(batch_lines)} lines)")
         batch_cases.clear()
@@ -509,7 +565,7 @@ def main():
             res.bump("family", fam)
             res.bump("layout_style", style)
             res.bump("tokens", min(len(tokens_of(d)) // 10 * 10, 60))
-            queue("tree/" + fam, text, def_sexpr(d))
+            queue("tree/" + fam, text, def_sexpr(d), doc_shape(d))
             if fam == "finding" and has_named_single(d):
                 res.bump("hypotheses", "finding pattern (C only)")
             else:
@@ -535,7 +591,7 @@ def main():
             text = bytes.fromhex(o[3:]).decode("utf-8") if o[3:] != "-" else ""
             res.count(("lean-render", text), nontrivial=d[0] == "L")
             res.bump("layout_style", "lean-render")
-            queue("lean-render/" + fam, text, def_sexpr(d))
+            queue("lean-render/" + fam, text, def_sexpr(d), doc_shape(d))
             want_tokens = "ok " + " ".join(enc_name(t) for t in tokens_of(d))
             if impl_split(text).rstrip() != want_tokens.rstrip():
                 res.violate("c19-tokens", "Spec.render text is not read as the tokens of its definition", {"def": def_sexpr(d), "text": text}, want_tokens, impl_split(text))
